@@ -18,6 +18,18 @@ def M(cfg, kind, **kw):
     return dict(mode="mc", cfg=cfg, kind=kind, **kw)
 
 
+def SE(cfg, n, rate=1.0, **kw):
+    return dict(mode="edge", cfg=cfg, kind="counter", n=n, rate=rate, tool="syncreplay", dump_module="OrdaSyncDump.tla", **kw)
+
+
+def SS(cfg, n, num, depth, **kw):
+    return dict(mode="sim", cfg=cfg, kind="counter", n=n, num=num, depth=depth, tool="syncreplay", dump_module="OrdaSyncDump.tla", **kw)
+
+
+def SM(cfg, **kw):
+    return dict(mode="mc", cfg=cfg, kind="counter", module="OrdaSync.tla", **kw)
+
+
 def multi(tier, props_doc=True):
     """multi-replica histories shared by C01, C02, C15"""
     if tier == "quick":
@@ -37,6 +49,24 @@ def jobs(prop, tier):
     q = tier == "quick"
     if prop in ("C01", "C02", "C15"):
         return multi(tier)
+    if prop == "C05":
+        if q:
+            return [SE("sync_basic_edge", 2, rate=0.1), SE("sync_sc_edge", 2, rate=0.1), SE("sync_3_edge", 3, rate=0.005),
+                    SS("sync_sim", 3, 40, 60)]
+        return [SM("sync_basic"), SM("sync_sc"), SM("sync_3"), SM("sync_big"), SE("sync_basic_edge", 2), SE("sync_sc_edge", 2),
+                SE("sync_3_edge", 3, rate=0.05), SS("sync_sim", 3, 600, 80)]
+    if prop == "C06":
+        if q:
+            return [SE("sync_basic_edge", 2, rate=0.08), SE("sync_3_edge", 3, rate=0.004), SE("sync_faults_edge", 2, rate=0.004),
+                    SS("sync_sim", 3, 30, 60), SS("sync_faults_sim", 3, 30, 60)]
+        return [SM("sync_basic"), SM("sync_3"), SM("sync_faults"), SE("sync_basic_edge", 2), SE("sync_3_edge", 3, rate=0.05),
+                SE("sync_faults_edge", 2, rate=0.05), SS("sync_sim", 3, 500, 80), SS("sync_faults_sim", 3, 500, 80)]
+    if prop == "C07":
+        if q:
+            return [SE("sync_faults_edge", 2, rate=0.006), SE("sync_faults_sc_edge", 2, rate=0.006), SE("sync_faults_late_edge", 2, rate=0.006),
+                    SS("sync_faults_sim", 3, 40, 60)]
+        return [SM("sync_faults"), SM("sync_faults_sc"), SM("sync_faults_late"), SE("sync_faults_edge", 2, rate=0.05),
+                SE("sync_faults_sc_edge", 2, rate=0.05), SE("sync_faults_late_edge", 2, rate=0.05), SS("sync_faults_sim", 3, 800, 80)]
     if prop == "C04":
         if q:
             return [E("list_edge3", "list", 3), E("list_edgeb", "list", 2), E("list_edge", "list", 2, rate=0.25), S("list_sim", "list", 3, 80, 40)]
